@@ -16,8 +16,9 @@ Definition xprint (b : N) : bool := (b =? 10) || (b =? 9) || ((32 <=? b) && (b <
 (* upper-case hexadecimal digit *)
 Definition hex_digit (d : N) : N := if d <? 10 then 48 + d else 55 + d.
 
-(* %02X of a byte *)
-Definition fmt_02X (b : N) : str := [hex_digit (b / 16); hex_digit (b mod 16)].
+(* %02X of a byte (for a byte, (b / 16) mod 16 = b / 16; written so that both digits are
+   hexadecimal digits for every N, which spares the safety theorem a b < 256 hypothesis) *)
+Definition fmt_02X (b : N) : str := [hex_digit ((b / 16) mod 16); hex_digit (b mod 16)].
 
 (* %X of a number: most significant digit first, at least one digit *)
 Fixpoint hex_aux (fuel : nat) (n : N) (acc : str) : str :=
